@@ -20,9 +20,9 @@ DROP_OK = {
     ("xml_info::XmlAttributeValue::new", "_"): "the catch-all follows `Text(v) if !v.is_empty()`: only an empty text run reaches it "
                                                "(the two Reference variants are matched above), and an empty run is no item",
     ("xml_info::XmlDocument::new::add_misc", "Whitespace"): "white space between markup in prolog / epilog is not an information item",
-    ("xml_info::XmlDocumentTypeDeclaration::node", "Whitespace"): "white space in the internal subset is not an information item",
-    ("xml_info::XmlDocumentTypeDeclaration::node", "Commnect"): "comments inside the DTD are not part of the information set (Infoset 2.4 note)",
-    ("xml_info::XmlDocumentTypeDeclaration::node", "Element"): "element type declarations have no information item",
+    ("xml_info::XmlDocumentTypeDeclaration::build", "Whitespace"): "white space in the internal subset is not an information item",
+    ("xml_info::XmlDocumentTypeDeclaration::build", "Commnect"): "comments inside the DTD are not part of the information set (Infoset 2.4 note)",
+    ("xml_info::XmlDocumentTypeDeclaration::build", "Element"): "element type declarations have no information item",
 }
 
 
@@ -58,7 +58,9 @@ def r01_3(facts, res):
     for f in facts.fns.values():
         if f["crate"] != "xml_info" or "body" not in f or f.get("derived"):
             continue
-        if f["path"].split("::")[-1] not in CONSTRUCTOR_FNS:
+        # constructors: the named ones and every function that returns an information item
+        ret = f.get("sig", "").split("->")[-1] if "->" in f.get("sig", "") else ""
+        if "::tests::" in f["path"] or not (f["path"].split("::")[-1] in CONSTRUCTOR_FNS or "Xml" in ret):
             continue
         for n in walk(f["body"]):
             if n.get("k") != "Match" or n.get("src") != "Normal":
@@ -112,8 +114,8 @@ def r01_3(facts, res):
                                         f["file"], arm.get("ln"), {}))
                     else:
                         res.oblige(1, True)
-    if st["matches"] < 10 or st["instances"] < 35:
-        raise BrokenCheck("R01-3: %d matches / %d arms (floor 10 / 35)" % (st["matches"], st["instances"]))
+    if st["matches"] < 10 or st["instances"] < 55:
+        raise BrokenCheck("R01-3: %d matches / %d arms (floor 10 / 55)" % (st["matches"], st["instances"]))
     # order of head / child / tail in XmlElement::node
     f = facts.fn("xml_info::XmlElement::node")
     ok = False
@@ -221,6 +223,57 @@ def r01_8(facts, res):
                                     "`true`: references in content are normalised too", v["file"], n.get("ln"), {}))
 
 
+def r01_9(facts, res):
+    """Entity references in the internal subset (attribute defaults) are resolved by Context::entity, which reads the
+    document's document-type declaration.  The function that converts the internal subset therefore has to run with the
+    declaration already attached to the document: otherwise <!ENTITY e 'x'><!ATTLIST r a CDATA '&e;'> - a well-formed
+    document - is refused with NotFoundReference."""
+    import guards
+    rule = "R01-9"
+    st = res.rule(rule, instances=0)
+    ent = facts.fn("xml_info::Context::entity")["id"]
+    reaches = {}
+
+    def reach_ent(fid):
+        if fid not in reaches:
+            r, _ = facts.reachable([fid])
+            reaches[fid] = ent in r
+        return reaches[fid]
+    new = facts.fn("xml_info::XmlDocument::new")
+    for f in sorted(facts.fns.values(), key=lambda x: x["path"]):
+        if f["crate"] != "xml_info" or "body" not in f or not f["path"].startswith("xml_info::XmlDocumentTypeDeclaration::"):
+            continue
+        seq = [n for n, _ in guards.ordered(f["body"])]
+        conv = [i for i, n in enumerate(seq) if n.get("k") == "Call" and str(n.get("f", {}).get("path", "")).endswith("XmlDeclarationAttList::node")]
+        if not conv or not reach_ent(f["id"]):
+            continue
+        st["instances"] += 1
+        first = min(conv)
+        attach = [i for i, n in enumerate(seq[:first]) if n.get("k") == "MethodCall" and str(n.get("path", "")).endswith("XmlDocument::push_child")]
+        ok = bool(attach)
+        why = "the declaration is attached to the document only after its internal subset was converted"
+        if ok:
+            # attachment may depend on a flag: the document constructor has to ask for it
+            flags = {p.get("lid"): i for i, p in enumerate(f.get("params", [])) if isinstance(p, dict) and p.get("ty") == "bool"}
+            conditional = None
+            for i, n in enumerate(seq[:first]):
+                if n.get("k") == "If" and any(x is seq[attach[0]] for x in walk(n.get("then", {}))) and \
+                        any(x.get("k") == "Path" and x.get("lid") in flags for x in walk(n["cond"])):
+                    conditional = [flags[x["lid"]] for x in walk(n["cond"]) if x.get("k") == "Path" and x.get("lid") in flags][0]
+            if conditional is not None:
+                calls = [n for n in walk(new["body"]) if n.get("k") == "Call" and (n["f"].get("rid") or n["f"].get("id")) == f["id"]]
+                ok = bool(calls) and all(len(c["args"]) > conditional and c["args"][conditional].get("k") == "Lit" and c["args"][conditional].get("v") is True
+                                         for c in calls)
+                why = "XmlDocument::new does not ask %s to attach the declaration first" % f["path"]
+        res.oblige(1, ok)
+        if not ok:
+            res.add(Finding(rule, f["path"].split("::")[-1], "%s converts the internal subset (its attribute defaults resolve entity references through "
+                            "Context::entity -> Document::document_declaration) but %s: an attribute default that refers to an entity declared "
+                            "earlier in the same subset is refused" % (f["path"], why), f["file"], seq[first].get("ln"), {}))
+    if st["instances"] < 1:
+        raise BrokenCheck("R01-9: no function converts attribute-list declarations and reaches Context::entity")
+
+
 def run(facts, tier):
     res = Result("C01")
     res.explanation = (
@@ -246,5 +299,6 @@ def run(facts, tier):
     guards.rule(facts, res, "R01-6", [facts.fns[x] for x in reach if x in facts.fns], want=("G3",), floor=1)
     c11.c11_7(facts, res, facts.fn("xml_info::<XmlElement as Element>::attributes"), rule="R01-7")
     r01_8(facts, res)
+    r01_9(facts, res)
     res.functions_analysed = res.extra["grammar"]["productions"]
     return res
